@@ -54,7 +54,11 @@ func Init(dir string) {
 	inited = true
 	scratch = dir
 	os.MkdirAll(dir, 0o755)
-	logging.Init(dir, "v.log", "fatal", 0, true)
+	lvl := "fatal"
+	if l := os.Getenv("VH_LOGLEVEL"); l != "" {
+		lvl = l // debugging aid: the log goes to <scratch>/v.log
+	}
+	logging.Init(dir, "v.log", lvl, 0, true)
 	logrus.RegisterExitHandler(func() {
 		mu.Lock()
 		fatals = append(fatals, Fatal{Stack: string(debug.Stack())})
